@@ -154,7 +154,7 @@ def check(run: lib.Run, audit: dict) -> int:
                        "datetime.fromisoformat / fromtimestamp are oracles computed by the harness"]
     if not audit["ok"]:
         raise lib.CheckError(f"Lean build/audit failed at {audit['stage']}: {audit.get('log') or audit.get('forbidden') or audit.get('bad_axioms')}")
-    run_cases(run, audit)
+    run_cases(run, audit, scale=run.boost)
     violations = []
     if run.disagreements and not run.spec_failures:
         # a disagreement on a Boolean/mismatch class IS a change of operator meaning: the model's value is the documented one
